@@ -21,9 +21,13 @@ class _:
     props = ["C11", "C20", "C04"]
     fields = {"reactor": ("Ref_Reactor", False), "timeout": ("float", False), "_disconnect_on_timeout": ("bool", False),
               "_closing": "bool", "_api_versions": "Optional[List[ApiVersion]]", "_api_versions_zero": "bool",
-              "correlation_id": "int", "close_dlist": "Optional[Ref_Deferred]"}
+              "correlation_id": "int", "close_dlist": "Optional[Ref_Deferred]",
+              "clients": "Optional[Dict[int, Ref_BrokerClientAPI]]", "_brokers": "Dict[int, BrokerMetadata]",
+              "_endpoint_factory": ("Any", False), "clientId": ("Any", False), "_retry_policy": ("Any", False)}
     invariant = {"timeout-positive": "self.timeout > 0"}
-    rely = {"closing-is-final": "implies(old(self._closing), self._closing)"}
+    rely = {"closing-is-final": "implies(old(self._closing), self._closing)",
+            # once closed the table of broker clients is gone for good (nothing creates clients any more)
+            "no-clients-once-closed": "implies(old(self._closing) and old(self.clients) is None, self.clients is None)"}
 
 
 SELF = "self: Ref_KafkaClient"
@@ -102,3 +106,52 @@ method("_handle_responses",
            "raise#3": {"other-errors-fail-only-on-request[C08,C09]": "fail_on_error and resp.error != 0"}},
        ensures={"all-responses-in-order[C08]": "result == responses"},
        raises={"BrokerResponseError": "fail_on_error"})
+
+
+# ---- C20: no broker client (hence no connection) is handed out or created after close() ----------------------------
+method("_get_brokerclient", "(%s, node_id: int) -> Ref_BrokerClientAPI" % SELF, props=["C20"],
+       construct_as={"_KafkaBrokerClient": "BrokerClientAPI"},
+       requires=["self._closing or self.clients is not None"],        # close() is what sets clients to None
+       ensures={"only-while-open[C20]": "not self._closing",
+                "the-client-of-that-node[C20]": "self.clients is not None and node_id in self.clients and result == self.clients[node_id]",
+                "created-only-when-missing[C20]": "n_events('Construct:_KafkaBrokerClient') == ite(node_id in old(self.clients), 0, 1)"},
+       raises={"ClientError[C20]": "iff:self._closing", "KeyError": "not self._closing and node_id not in self._brokers"})
+
+
+# ---- C20: the aggregate close Deferred nests the earlier one and covers every broker client being closed ------------
+CB_ENV = {"self": "Ref_KafkaClient"}
+contract(K + "_close_brokerclients.<_log_close_failure>")(type('_', (), dict(
+    sig="(failure: Ref_Failure, brokerclient: Ref_BrokerClientAPI) -> None", props=["C20"], entry_point=True, closure_env={},
+    ensures={"swallows-the-failure[C20]": "result is None"},
+    notes="returns None: a failed broker-client close still counts as 'gone' for the aggregate")))
+
+contract(K + "_close_brokerclients.<_clean_close_dlist>")(type('_', (), dict(
+    sig="(result: Any, close_dlist: Ref_Deferred) -> None", props=["C20"], entry_point=True, closure_env=dict(CB_ENV),
+    # only the aggregate that is still the current one may clear the slot: a later (nesting) aggregate stays in place
+    ensures={"resets-only-its-own-aggregate[C20]":
+             "self.close_dlist == ite(old(self.close_dlist) == close_dlist, None, old(self.close_dlist))"})))
+
+method("_close_brokerclients", "(%s, clients: List[Ref_BrokerClientAPI]) -> None" % SELF, props=["C20"],
+       locals={"dList": "List[Ref_Deferred]"},
+       loops={"for#1": dict(index="i", inv=[
+           "len(dList) == i + ite(old(self.close_dlist) is None, 0, 1)",
+           "implies(old(self.close_dlist) is not None, dList[0] == old(self.close_dlist))"])},
+       checkpoints={"call:addBoth#1": {
+           "aggregate-covers-the-earlier-one-and-every-client[C20]":
+               "self.close_dlist is not None and len(dl_members(self.close_dlist)) == len(clients) + ite(old(self.close_dlist) is None, 0, 1) "
+               "and implies(old(self.close_dlist) is not None, dl_members(self.close_dlist)[0] == old(self.close_dlist))"}},
+       ensures={"every-client-closed[C20]": "True"})
+
+method("reset_all_metadata", "(%s) -> None" % SELF, props=["C20"], trusted=True, modifies=[],
+       assumes=["KafkaClient.reset_all_metadata is represented by a trusted contract (it clears four dict caches outside the "
+                "symbolic subset; that close() leaves them empty is exercised by the exhaustive client_close scenario)"])
+
+method("close", "(%s) -> Optional[Ref_Deferred]" % SELF, props=["C20"],
+       requires=["self.clients is not None"],          # close() has not run before (it is what sets clients to None)
+       checkpoints={"call:_close_brokerclients#1": {
+           # closed for business before the first broker client is touched: whatever re-enters from here on is refused
+           "poisoned-first[C20]": "self._closing and self.clients is None"}},
+       ensures={"closed[C20]": "self._closing and self.clients is None",
+                "metadata-dropped[C20]": "n_calls('reset_all_metadata') == 1",
+                "waits-for-the-aggregate[C20]": "result is not None and ((self.close_dlist is not None and result == self.close_dlist) or "
+                                                "(self.close_dlist is None and called(result)))"})
